@@ -36,6 +36,9 @@ def main():
     base_seed = int(os.environ.get("VERIF_SEED", "0") or 0)
     if "--replay" in args:
         return driver.replay_file(check, args[args.index("--replay") + 1])
+    if "--seq-digest" in args:
+        check.seq_digest_main()
+        return 0
     if "--digests" in args:
         i = args.index("--digests")
         driver.print_digests(check, args[i + 1], [int(x) for x in args[i + 2].split(",")], base_seed)
